@@ -545,6 +545,122 @@ func (n *normaliser) site(h *nHelper, call *ast.CallExpr, cf string, parent map[
 		return strings.Join(lhs, ", ") + " " + assign.Tok.String() + " " + strings.Join(resNames, ", ")
 	}
 
+	// A helper with several returns whose value feeds ONE self-contained statement (a return, an expression
+	// statement, an if): the statement is repeated at each return with that return's values in place, which is
+	// the shape the code had before the values were merged through the helper (k guarded call sites instead of
+	// one call site with a φ argument).
+	if !trailingOnly && (shape == "expr" || shape == "if-init") {
+		_, isRet := host.(*ast.ReturnStmt)
+		_, isExpr := host.(*ast.ExprStmt)
+		_, isIf := host.(*ast.IfStmt)
+		if (isRet && !inClosure) || isExpr || isIf {
+			label := fmt.Sprintf("inl%dL", id)
+			return []*inlineSite{{file: cf, s: n.off(host.Pos()), e: n.off(host.End()), text: func() (string, bool) {
+				pre, in := bindings()
+				cont := func(ret *ast.ReturnStmt) (string, bool) {
+					var vals []string
+					for _, r := range ret.Results {
+						t, ok := n.render(file, n.off(r.Pos()), n.off(r.End()))
+						if !ok {
+							return "", false
+						}
+						vals = append(vals, t)
+					}
+					if len(vals) != len(resTypes) {
+						return "", false
+					}
+					if shape == "if-init" {
+						ifs := host.(*ast.IfStmt)
+						rest, ok := n.render(cf, n.off(ifs.Cond.Pos()), n.off(ifs.End()))
+						if !ok {
+							return "", false
+						}
+						var lhs []string
+						for _, l := range assign.Lhs {
+							lhs = append(lhs, n.srcOf(cf, l.Pos(), l.End()))
+						}
+						// "v, ok := h(); if ok {…}" with this return's ok a literal: only the branch taken is kept
+						ifText := "if " + rest
+						condID, neg := ifs.Cond, false
+						if u, isU := condID.(*ast.UnaryExpr); isU && u.Op == token.NOT {
+							condID, neg = u.X, true
+						}
+						if cid, isID := condID.(*ast.Ident); isID {
+							for k, l := range lhs {
+								if l == cid.Name && (vals[k] == "true" || vals[k] == "false") {
+									taken := (vals[k] == "true") != neg
+									switch {
+									case taken:
+										t, ok := n.render(cf, n.off(ifs.Body.Pos()), n.off(ifs.Body.End()))
+										if !ok {
+											return "", false
+										}
+										ifText = t
+									case ifs.Else != nil:
+										t, ok := n.render(cf, n.off(ifs.Else.Pos()), n.off(ifs.Else.End()))
+										if !ok {
+											return "", false
+										}
+										ifText = t
+									default:
+										ifText = ""
+									}
+								}
+							}
+						}
+						if assign.Tok == token.DEFINE {
+							// typed declarations: an untyped constant result takes the helper's result type
+							var d strings.Builder
+							for k, l := range lhs {
+								if l == "_" {
+									fmt.Fprintf(&d, "_ = %s\n", vals[k])
+								} else {
+									fmt.Fprintf(&d, "var %s %s = %s\n_ = %s\n", l, resTypes[k], vals[k], l)
+								}
+							}
+							return d.String() + ifText, true
+						}
+						return strings.Join(lhs, ", ") + " " + assign.Tok.String() + " " + strings.Join(vals, ", ") + "\n" + ifText, true
+					}
+					a, ok1 := n.render(cf, n.off(host.Pos()), n.off(call.Pos()))
+					b, ok2 := n.render(cf, n.off(call.End()), n.off(host.End()))
+					if !ok1 || !ok2 {
+						return "", false
+					}
+					return a + resTypes[0] + "(" + vals[0] + ")" + b, true
+				}
+				var b strings.Builder
+				pos := bs
+				for _, ret := range h.rets {
+					gap, ok := n.render(file, pos, n.off(ret.Pos()))
+					if !ok {
+						return "", false
+					}
+					b.WriteString(gap)
+					c, ok := cont(ret)
+					if !ok {
+						return "", false
+					}
+					if isRet {
+						fmt.Fprintf(&b, "{\n%s\n}", c)
+					} else {
+						fmt.Fprintf(&b, "{\n%s\nbreak %s\n}", c, label)
+					}
+					pos = n.off(ret.End())
+				}
+				gap, ok := n.render(file, pos, be)
+				if !ok {
+					return "", false
+				}
+				b.WriteString(gap)
+				if isRet {
+					return "{\n" + pre + "{\n" + in + b.String() + "\n}\n}", true
+				}
+				return "{\n" + pre + label + ":\nswitch {\ndefault:\n" + in + b.String() + "\n}\n}", true
+			}}}
+		}
+	}
+
 	switch shape {
 	case "tail":
 		return []*inlineSite{{file: cf, s: n.off(host.Pos()), e: n.off(host.End()), text: func() (string, bool) {
@@ -604,7 +720,6 @@ func (n *normaliser) site(h *nHelper, call *ast.CallExpr, cf string, parent map[
 	}
 	return nil
 }
-
 
 // importsSuffice: every package the helper's body names is imported, under the same name, by the file f.
 func importsSuffice(pk *packages.Package, h *ast.FuncDecl, f *ast.File) bool {
